@@ -84,7 +84,8 @@ ALL_LAWS = ["AllWellFormed", "RoundTripLaw", "EqLaws", "MergeIsConcat", "MergeOp
 
 
 def mc(res, binary, label, base, fields, glob, steps, nobj=2, nest_at=0, nest_fields=(), laws=ALL_LAWS, bad_utf8=False,
-       wire_recs=(), max_recs=0, flavs=None):
+       wire_recs=(), max_recs=0, flavs=None, also=()):
+    """also: further harness binaries (other builds) on which the same tour is replayed"""
     schema = export_schema(binary, (base,))
     tour = os.path.join(scratch(), "obj-%s.tour" % label)
     c = cfg({"Type": '"%s"' % base, "Fields": tlaset(fields), "NestAt": nest_at, "NestFields": tlaset(nest_fields),
@@ -105,8 +106,9 @@ def mc(res, binary, label, base, fields, glob, steps, nobj=2, nest_at=0, nest_fi
         with open(fp, "w") as fh:
             for l in lines:
                 fh.write(json.dumps(dict(l, type=tname, dyn=dyn)) + "\n")
-        replay_tour(res, binary, "hist", fp,
-                    key=lambda e: [e["type"], e["dyn"], e["steps"][-1]["op"], e["steps"][-1].get("f", 0), len(e["steps"])])
+        for bi, bb in enumerate((binary,) + tuple(also)):
+            replay_tour(res, bb, "hist", fp,
+                        key=lambda e: [bi, e["type"], e["dyn"], e["steps"][-1]["op"], e["steps"][-1].get("f", 0), len(e["steps"])])
         os.remove(fp)
     res.exhaustive = True
     return r
@@ -351,3 +353,107 @@ def c06(res, tier, seed):
     res.rule = ("tour: every byte string up to the bound over a schema-aware alphabet x recursion limits x lazy on/off, with the "
                 "specification's verdict and decoded content, replayed on all flavours (+ validator consistency); distinct = (flavour, "
                 "verdict, limit, length); driver: valid encodings + mutations + noise on 24 corpus types validated by Trace_PbDecode")
+
+
+# ============================================================================ C05, C29, C08: deterministic bytes, flavours, builds
+for _p in ("C05", "C29", "C08"):
+    MODULE_OF[_p] = "det"
+    HARNESS_PKGS[_p] = PKG
+DET_EXTRA = ("goproto.proto.testeditions.TestRequiredForeign", "goproto.proto.testeditions.TestAllExtensions")
+
+
+def det_schema(binary):
+    import subprocess
+    # default corpus + the flavour bases
+    inp = os.path.join(scratch(), "detschema.in")
+    # ask the harness for its default type list by exporting with an empty list, then add the extras
+    return export_schema(binary, tuple(sorted(set(t.split(":")[0] for t in DEFAULT_TYPES) | set(DET_EXTRA))))
+
+
+DEFAULT_TYPES = [
+    "goproto.proto.test.TestAllTypes", "goproto.proto.test.TestAllExtensions", "goproto.proto.test.TestRequired",
+    "goproto.proto.test.TestRequiredForeign", "goproto.proto.test.TestPackedTypes", "goproto.proto.test.TestUnpackedTypes",
+    "goproto.proto.test.TestPackedExtensions", "goproto.proto.test3.TestAllTypes", "hybrid.goproto.proto.test3.TestAllTypes",
+    "opaque.goproto.proto.test3.TestAllTypes", "goproto.proto.testeditions.TestAllTypes", "hybrid.goproto.proto.testeditions.TestAllTypes",
+    "opaque.goproto.proto.testeditions.TestAllTypes", "opaque.goproto.proto.testeditions.TestAllExtensions",
+    "opaque.goproto.proto.testeditions.TestRequired", "opaque.goproto.proto.testeditions.TestRequiredLazy",
+    "opaque.goproto.proto.testeditions.TestManyMessageFieldsMessage", "opaque.lazy_tree.Node", "hybrid.lazy_tree.Node", "lazy_tree.Node"]
+
+
+def det_run(res, binaries, seed, n, mix_ops=None, label="det"):
+    """Runs the same seeded det/flav/decdet cases in every given binary (process / build) and validates the concatenated
+    trace: each event against PbDetCases and the deterministic bytes per case id across binaries (memo)."""
+    schema = det_schema(binaries[0][1])
+    gen = os.path.join(scratch(), "%s-gen-%d.ndjson" % (label, seed))
+    harness(binaries[0][1], ["gen", "det", seed, n, gen])
+    if mix_ops:
+        keep = [json.dumps(c) for c in read_ndjson(gen) if c["op"] in mix_ops]
+        with open(gen, "w") as fh:
+            fh.write("\n".join(keep) + "\n")
+    trace = os.path.join(scratch(), "%s-trace-%d.ndjson" % (label, seed))
+    allev = []
+    with open(trace, "w") as out:
+        for (bname, b) in binaries:
+            o = gen + "." + bname
+            harness(b, ["exec", "det", gen, o])
+            for ev in read_ndjson(o):
+                ev["_build"] = bname
+                allev.append(ev)
+                out.write(json.dumps(ev) + "\n")
+    t0 = time.time()
+    # the memo needs one TLC process to see all builds of one id: shard by id ranges is not needed at this size
+    total, bad = validate_trace("Trace_PbDet", trace, shards=1, env={"SCHEMA": schema}, timeout=3000)
+    log("validated %d det events (%d builds/processes) in %.1fs: %d rejected" % (total, len(binaries), time.time() - t0, len(bad)))
+    for i, ev in enumerate(allev):
+        res.distinct.add(json.dumps([ev["op"], ev.get("type") or ev.get("base"), ev.get("dyn", False), ev["_build"]]))
+        if i % 211 == 0:
+            res.sample(json.dumps({k: v for k, v in ev.items() if k != "out"})[:900])
+    for i in bad:
+        ev = allev[i]
+        res.fail(dict(ev, _module="det", _trace="Trace_PbDet"), "trace: PbDetCases rejects the event, or its deterministic bytes differ from another process/build")
+    res.trace_events += total; res.evaluations += total; res.traces += len(binaries)
+
+
+@check("C05")
+def c05(res, tier, seed):
+    b = build_harness(PKG)
+    # spec-level: identical canonical encodings imply equality, over all reachable pairs (DetInjective), and the tour over map/field insertion
+    mc(res, b, "det-te", BASE_TE, [1, 12, 14, 31, 56, 69, 71, 112], ["clone", "rt"], D(tier, 2, 3), laws=["AllWellFormed", "RoundTripLaw", "DetInjective", "EqLaws"])
+    # two separate processes of the same binary (Go re-seeds map iteration per process and per range statement)
+    det_run(res, [("p1", b), ("p2", b)], seed, 500 if tier == "quick" else 20000, mix_ops=("det",))
+    res.rule = ("every seeded content is built along 8 histories (shuffled field and map insertion, overwrite after Reset, clone, decode of the "
+                "default encoding, repeated marshals) in two separate processes; all deterministic encodings must be identical and must decode "
+                "(specification Decode) to the content, which gives the Equal direction; distinct = (operation, type, flavour, process)")
+    res.assumptions.append("hidden map-iteration nondeterminism is exposed by repetition (8 builds x 2 processes per content), not enumerated")
+
+
+@check("C29")
+def c29(res, tier, seed):
+    b = build_harness(PKG)
+    mc(res, b, "flav-te", BASE_TE, [1, 124, 14, 18, 31, 69, 112, 121], ["rt", "clone"], D(tier, 2, 3))
+    mc2(tier, res, b, "flav-t3", BASE_T3, [1, 81, 18, 98, 31, 71, 112], ["rt", "clone"], 2)
+    det_run(res, [("p1", b)], seed, 400 if tier == "quick" else 12000, mix_ops=("flav",), label="flav")
+    res.rule = ("tour: every bounded history replayed on the open, hybrid, opaque and dynamicpb flavour with the same expected projection; "
+                "driver: one seeded content per case built in every flavour: identical deterministic bytes, and every flavour decodes every "
+                "other flavour's binary, JSON and text output to the content; distinct = (operation, schema family)")
+
+
+@check("C08")
+def c08(res, tier, seed):
+    b = build_harness(PKG)
+    br = build_harness(PKG, tags="verif,protoreflect")
+    # the reflection build is bound to the same specification as the fast path: exhaustive tour on both builds ...
+    mc(res, b, "builds-te", BASE_TE, [1, 124, 12, 14, 18, 31, 69, 112], ["rt", "merge", "clone", "equal", "checkinit", "size"], 2,
+       nest_at=18, nest_fields=[1], also=(br,), laws=["AllWellFormed", "RoundTripLaw", "EqLaws", "MergeIsConcat"])
+    # ... seeded histories on the reflection build ...
+    os.environ["VERIF_MIX"] = "mut=10,marshal=2,size=2,unmarshal=4,rt=2,merge=2,clone=2,equal=2,checkinit=2,umerge=1,cat=1"
+    try:
+        drive_hist(res, br, seed, 250 if tier == "quick" else 8000, shards=3, label="hist-reflect")
+    finally:
+        os.environ.pop("VERIF_MIX", None)
+    # ... and both builds (+ dynamicpb inside each) must produce the same deterministic bytes / verdicts / Size / CheckInitialized for the same case
+    det_run(res, [("fast", b), ("reflect", br)], seed, 500 if tier == "quick" else 20000, mix_ops=("det", "decdet"), label="builds")
+    res.rule = ("the harness is built twice (default; -tags protoreflect); seeded histories of the reflection build are validated by Trace_PbObject "
+                "(the same specification the fast path is bound to), and the same seeded det/decdet cases run in both builds must give identical "
+                "deterministic bytes, verdicts and CheckInitialized results (memo per case id); dynamicpb types run inside both; distinct = "
+                "(operation, type, flavour, build)")
